@@ -12,6 +12,7 @@ RULE = ("live runs of all ten optimizer classes (objectives with ties and platea
         "and a slot changes only to its own trial when trial >= parent, stored fitness = objective re-evaluated on the stored "
         "phenotype; every trace replayed through the Coq loop model. distinct = configuration incl. seed.")
 THEORIES, TRUSTED, ASSUMPTIONS = _loop.THEORIES, _loop.TRUSTED, _loop.ASSUMPTIONS
+gen = _loop.gen
 
 
 def predicate(tr, rep):
